@@ -40,6 +40,8 @@ plan('C11',
          Job(H, 'loop', 'asan', quick=40, thorough=1500, shards=(4, 8), params=dict(maxbig=200000), tparams=dict(maxbig=2000000), batch=5, case_timeout=200),
          Job(H, 'loop', 'plain', quick=40, thorough=1500, shards=(4, 8), params=dict(maxbig=200000), tparams=dict(maxbig=2000000), batch=5, case_timeout=200),
          Job(H, 'handshake', 'asan', quick=600, thorough=20000, shards=(2, 4), params=dict(dump=1), batch=100),
+         Job(H, 'handshake_mt', 'plain', quick=48, thorough=600, shards=(3, 4), params=dict(dump=1, rounds=40), batch=8, case_timeout=250),
+         Job(H, 'handshake_mt', 'tsan', quick=6, thorough=40, shards=(2, 4), params=dict(rounds=10), batch=2, case_timeout=250, leakcheck=False),
          Job(H, 'hostile', 'asan', quick=120, thorough=4800, shards=(6, 16), batch=25, case_timeout=200),
          Job(H, 'hostile', 'plain', quick=400, thorough=10000, shards=(2, 8), batch=25, case_timeout=200),
      ],
